@@ -34,6 +34,10 @@ pub enum Op {
     SetFlag { which: u8, value: bool },
     /// Compare the long-lived database with a fresh one.
     Check,
+    /// Compare the in-process fresh database with a fresh database in a NEW PROCESS on the same
+    /// contents: "a fresh compiler instance" of the property is a new process, and process-global
+    /// state of the compiler (a `static` cache) would otherwise be shared by both sides.
+    FreshProcessCheck,
 }
 
 #[derive(Clone, Debug)]
@@ -132,6 +136,64 @@ fn fresh_observation(root: &Path, world: &World, starknet: bool, project: &str, 
         FRESH_MEMO.lock().unwrap().get_or_insert_with(HashMap::new).insert(key, r.clone());
     }
     r
+}
+
+/// A fresh database on `world` in a new process (`simdb c13-fresh`). `None`: the child did not
+/// deliver (killed, timed out) - inconclusive, never an observation.
+fn fresh_in_new_process(project: &Project, world: &World) -> Option<Result<Obs, String>> {
+    use std::io::Write;
+    let req = json!({"project": project.to_json(), "disk": world.disk, "overrides": world.overrides, "flags": world.flags.iter().map(|(k, v)| (k.to_string(), *v)).collect::<BTreeMap<String, bool>>()});
+    let me = std::env::current_exe().ok()?;
+    let mut child = std::process::Command::new(me)
+        .arg("c13-fresh")
+        .stdin(std::process::Stdio::piped())
+        .stdout(std::process::Stdio::piped())
+        .stderr(std::process::Stdio::null())
+        .spawn()
+        .ok()?;
+    child.stdin.take()?.write_all(req.to_string().as_bytes()).ok()?;
+    let out = child.wait_with_output().ok()?;
+    let text = String::from_utf8_lossy(&out.stdout);
+    let line = text.lines().rev().find(|l| l.starts_with("{\"c13-fresh\""))?;
+    let v: Value = serde_json::from_str(line).ok()?;
+    let r = &v["c13-fresh"];
+    if let Some(p) = r["panic"].as_str() {
+        return Some(Err(p.to_string()));
+    }
+    Some(Ok(Obs { diagnostics: r["diagnostics"].as_str()?.to_string(), sierra: r["sierra"].as_str()?.to_string(), locations: r["locations"].as_str()?.to_string() }))
+}
+
+/// Child-process entry point of [`fresh_in_new_process`].
+pub fn fresh_child() -> i32 {
+    let mut s = String::new();
+    std::io::Read::read_to_string(&mut std::io::stdin(), &mut s).unwrap();
+    let v: Value = serde_json::from_str(&s).unwrap_or_else(|e| harness_error(&format!("c13-fresh request: {e}")));
+    let project = Project::from_json(&v["project"]).unwrap_or_else(|| harness_error("c13-fresh: bad project"));
+    let disk: BTreeMap<String, Option<String>> = serde_json::from_value(v["disk"].clone()).unwrap_or_else(|e| harness_error(&format!("c13-fresh disk: {e}")));
+    let overrides: BTreeMap<String, String> = serde_json::from_value(v["overrides"].clone()).unwrap_or_else(|e| harness_error(&format!("c13-fresh overrides: {e}")));
+    let flags: BTreeMap<String, bool> = serde_json::from_value(v["flags"].clone()).unwrap_or_else(|e| harness_error(&format!("c13-fresh flags: {e}")));
+    let scratch = scratch_dir("freshproc");
+    let _ = std::fs::remove_dir_all(&scratch);
+    project.materialise(&scratch);
+    for (f, c) in &disk {
+        write_disk(&scratch, f, c.as_deref());
+    }
+    let r = (|| {
+        let mut sut = Sut::new(&scratch, project.starknet)?;
+        for (k, v) in &flags {
+            sut.set_flag(k.parse().unwrap_or(0), *v);
+        }
+        for (f, c) in &overrides {
+            sut.set_override(f, Some(c.clone()));
+        }
+        dbx::observe_in(&sut.db, &sut.main, &scratch)
+    })();
+    let _ = std::fs::remove_dir_all(&scratch);
+    match r {
+        Ok(o) => println!("{}", json!({"c13-fresh": {"diagnostics": o.diagnostics, "sierra": o.sierra, "locations": o.locations}})),
+        Err(p) => println!("{}", json!({"c13-fresh": {"panic": p}})),
+    }
+    0
 }
 
 fn write_disk(root: &Path, file: &str, content: Option<&str>) {
@@ -254,6 +316,30 @@ pub fn run_history(project: &Project, ops: &[Op], scratch: &Path, use_memo: bool
                 stats.counters.add("warmup/tasks", ex.tasks_run.get());
                 if r.is_err() {
                     stats.counters.inc("warmup/panicked");
+                }
+            }
+            Op::FreshProcessCheck => {
+                let ident = format!("{}:{}", project.name, project.files.get("cairo_project.toml").map(|s| s.as_str()).unwrap_or(""));
+                let here = fresh_observation(scratch, &world, project.starknet, &ident, use_memo);
+                match fresh_in_new_process(project, &world) {
+                    None => stats.counters.inc("fresh_process/inconclusive"),
+                    Some(there) => {
+                        stats.counters.inc("fresh_process/compared");
+                        let same = match (&here, &there) {
+                            (Ok(a), Ok(b)) => a == b,
+                            (Err(_), Err(_)) => true,
+                            _ => false,
+                        };
+                        if !same {
+                            let detail = match (&here, &there) {
+                                (Ok(a), Ok(b)) => a.first_difference(b).replace("incremental=", "in-process=").replace("fresh=", "new-process="),
+                                (Err(p), _) => format!("in-process fresh database panicked ({p}), the one in a new process did not"),
+                                (_, Err(p)) => format!("fresh database in a new process panicked ({p}), the in-process one did not"),
+                            };
+                            result = Some(Violation { class: "fresh-process-differs".into(), detail, at_op: i, items: String::new() });
+                            break;
+                        }
+                    }
                 }
             }
             Op::Check => {
@@ -552,7 +638,7 @@ fn signature(project: &Project, ops: &[Op], v: &Violation) -> String {
             Op::Warmup { .. } => Some("warmup".into()),
             Op::SetFlag { .. } => Some("flag".into()),
             Op::Query { .. } => Some("query".into()),
-            Op::Check => None,
+            Op::Check | Op::FreshProcessCheck => None,
         })
         .collect();
     format!("{}|{}|{}", v.class, project.name, kinds.join(","))
@@ -624,7 +710,11 @@ pub fn run(opts: Opts, projects: Vec<Project>) -> i32 {
             let hseed = mix(seed, run_index);
             let pi = (run_index as usize) % projects.len();
             let project = &projects[pi];
-            let ops = generate(project, hseed, max_len, quick);
+            let mut ops = generate(project, hseed, max_len, quick);
+            if hseed % 4 == 0 {
+                // One history in four ends with a fresh database in a new process.
+                ops.push(Op::FreshProcessCheck);
+            }
             let mut stats = RunStats::default();
             let violation = run_history(project, &ops, &scratch_dir(&format!("{run_index}")), true, &mut stats);
             HistoryResult { project: pi, seed: hseed, ops, violation, stats }
@@ -673,47 +763,61 @@ pub fn run(opts: Opts, projects: Vec<Project>) -> i32 {
     let mut n_viol = 0;
     let mut reported = BTreeSet::new();
     let replay_dir = simcore::verif_root().join("replays/C13");
-    for r in all.iter().filter(|r| r.violation.is_some()) {
+    // Every candidate of the minimisation and the final file are evaluated in a NEW PROCESS
+    // (`simdb replay`): what is reported is then reproducible by construction, and process-global
+    // state of the compiler (which the harness's own earlier runs may have touched) cannot produce
+    // an in-process-only difference. Differences that do not show in a new process are not
+    // reported as violations; if nothing else is found they end the check as a harness error.
+    let mut unconfirmed: Vec<String> = vec![];
+    let mut violating: Vec<&HistoryResult> = all.iter().filter(|r| r.violation.is_some()).collect();
+    violating.sort_by_key(|r| r.violation.as_ref().map(|v| v.class != "fresh-process-differs").unwrap_or(true));
+    let _ = std::fs::create_dir_all(&replay_dir);
+    let me = std::env::current_exe().unwrap();
+    for r in violating {
         let v = r.violation.as_ref().unwrap();
         let project = &projects[r.project];
-        if reported.len() >= 6 {
+        if reported.len() >= 6 || unconfirmed.len() >= 8 {
             break;
         }
-        // Minimise while the same class persists.
         let class = v.class.clone();
+        let cand_path = replay_dir.join(format!(".candidate-{}.json", std::process::id()));
         let mut evals = 0;
-        let min_ops = simcore::ddmin(&r.ops[..=v.at_op.min(r.ops.len() - 1)], |cand| {
+        let mut fails_in_new_process = |cand: &[Op]| -> bool {
             evals += 1;
-            let mut st = RunStats::default();
-            matches!(run_history(project, cand, &scratch_dir("min"), false, &mut st), Some(x) if x.class == class)
-        });
+            std::fs::write(&cand_path, serde_json::to_string(&replay_value(project, cand, v, r.seed)).unwrap()).unwrap();
+            matches!(std::process::Command::new(&me).arg("replay").arg(&cand_path).arg("--quiet").status(), Ok(s) if s.code() == Some(1))
+        };
+        let full = &r.ops[..=v.at_op.min(r.ops.len() - 1)];
+        if !fails_in_new_process(full) {
+            unconfirmed.push(format!("{} (project {}, history seed {}, {} ops)", class, project.name, r.seed, full.len()));
+            continue;
+        }
+        let min_ops = simcore::ddmin(full, &mut fails_in_new_process);
+        let _ = std::fs::remove_file(&cand_path);
         let mut st = RunStats::default();
-        let Some(v2) = run_history(project, &min_ops, &scratch_dir("min"), false, &mut st) else {
-            let mut st0 = RunStats::default();
-            let again = run_history(project, &r.ops, &scratch_dir("min"), false, &mut st0).map(|x| x.class);
-            harness_error(&format!(
-                "minimised history does not fail (project {}, history seed {}, class {}, {} ops -> {} ops; full history without memo: {:?})",
-                project.name, r.seed, class, r.ops.len(), min_ops.len(), again
-            ));
+        let v2 = match run_history(project, &min_ops, &scratch_dir("min"), false, &mut st) {
+            Some(x) if x.class == class => x,
+            _ => v.clone(),
         };
         let sig = signature(project, &min_ops, &v2);
         if !reported.insert(sig.clone()) {
             continue;
         }
-        let _ = std::fs::create_dir_all(&replay_dir);
         let path = replay_dir.join(format!("{}-{}.json", r.seed, hex64(fnv64(sig.as_bytes()))));
         std::fs::write(&path, serde_json::to_string_pretty(&replay_value(project, &min_ops, &v2, r.seed)).unwrap()).unwrap();
-        let me = std::env::current_exe().unwrap();
-        let st = std::process::Command::new(me).arg("replay").arg(&path).arg("--quiet").status();
+        let st = std::process::Command::new(&me).arg("replay").arg(&path).arg("--quiet").status();
         match st {
             Ok(s) if s.code() == Some(1) => {
                 println!("VIOLATION property=C13 replay={}", path.display());
-                println!("  {} ({} ops after minimisation from {}, {evals} evaluations): {}", v2.class, min_ops.len(), r.ops.len(), v2.detail);
+                println!("  {} ({} ops after minimisation from {}, {evals} evaluations in new processes): {}", v2.class, min_ops.len(), r.ops.len(), v2.detail);
                 n_viol += 1;
                 exit = simcore::EXIT_VIOLATION;
             }
-            other => harness_error(&format!("replay of {path:?} in a fresh process did not reproduce: {other:?}")),
+            other => unconfirmed.push(format!("{} (project {}, history seed {}): final replay {:?}", class, project.name, r.seed, other)),
         }
+    }
+    if n_viol == 0 && !unconfirmed.is_empty() {
+        harness_error(&format!("differences seen in-process did not reproduce in a new process: {}", unconfirmed.join("; ")));
     }
 
     let wall = t0.elapsed().as_secs_f64();
